@@ -146,7 +146,7 @@ impl OutputFormatter {
         let schema = batches[0].schema();
 
         // Write header
-        let headers: Vec<&str> = schema.fields().iter().map(|f| f.name().as_str()).collect();
+        let headers: Vec<String> = schema.fields().iter().map(|f| csv_quote(f.name())).collect();
         writeln!(writer, "{}", headers.join(","))?;
 
         // Write data rows
@@ -207,7 +207,7 @@ impl OutputFormatter {
                     }
                     let col = batch.column(col_idx);
                     let value = self.format_json_value(col, row_idx);
-                    write!(writer, "\"{}\": {}", field_name, value)?;
+                    write!(writer, "\"{}\": {}", json_escape(field_name), value)?;
                 }
                 write!(writer, "}}")?;
                 row_count += 1;
@@ -269,12 +269,7 @@ impl OutputFormatter {
 
         let value = self.format_display_value(array, row);
 
-        // Quote if contains comma, quote, or newline
-        if value.contains(',') || value.contains('"') || value.contains('\n') {
-            format!("\"{}\"", value.replace('"', "\"\""))
-        } else {
-            value
-        }
+        csv_quote(&value)
     }
 
     /// Format a single value for JSON output
@@ -287,12 +282,12 @@ impl OutputFormatter {
             DataType::Utf8 => {
                 let arr = array.as_any().downcast_ref::<StringArray>().unwrap();
                 let val = arr.value(row);
-                format!("\"{}\"", val.replace('\\', "\\\\").replace('"', "\\\""))
+                format!("\"{}\"", json_escape(val))
             }
             DataType::LargeUtf8 => {
                 let arr = array.as_any().downcast_ref::<LargeStringArray>().unwrap();
                 let val = arr.value(row);
-                format!("\"{}\"", val.replace('\\', "\\\\").replace('"', "\\\""))
+                format!("\"{}\"", json_escape(val))
             }
             DataType::Boolean => {
                 let arr = array.as_any().downcast_ref::<BooleanArray>().unwrap();
@@ -332,15 +327,17 @@ impl OutputFormatter {
             }
             DataType::Float32 => {
                 let arr = array.as_any().downcast_ref::<Float32Array>().unwrap();
-                arr.value(row).to_string()
+                let v = arr.value(row);
+                if v.is_finite() { v.to_string() } else { "null".to_string() }
             }
             DataType::Float64 => {
                 let arr = array.as_any().downcast_ref::<Float64Array>().unwrap();
-                arr.value(row).to_string()
+                let v = arr.value(row);
+                if v.is_finite() { v.to_string() } else { "null".to_string() }
             }
             _ => {
                 // For other types, use display format with quotes
-                format!("\"{}\"", self.format_display_value(array, row))
+                format!("\"{}\"", json_escape(&self.format_display_value(array, row)))
             }
         }
     }
@@ -456,6 +453,32 @@ impl OutputFormatter {
             }
         }
     }
+}
+
+/// Quote a CSV field per RFC 4180: iff it contains a comma, a quote, CR or LF; quotes are doubled.
+fn csv_quote(value: &str) -> String {
+    if value.contains(',') || value.contains('"') || value.contains('\n') || value.contains('\r') {
+        format!("\"{}\"", value.replace('"', "\"\""))
+    } else {
+        value.to_string()
+    }
+}
+
+/// Escape a string for use inside a JSON string literal (RFC 8259).
+fn json_escape(s: &str) -> String {
+    let mut out = String::with_capacity(s.len() + 2);
+    for c in s.chars() {
+        match c {
+            '"' => out.push_str("\\\""),
+            '\\' => out.push_str("\\\\"),
+            '\n' => out.push_str("\\n"),
+            '\r' => out.push_str("\\r"),
+            '\t' => out.push_str("\\t"),
+            c if (c as u32) < 0x20 => out.push_str(&format!("\\u{:04x}", c as u32)),
+            c => out.push(c),
+        }
+    }
+    out
 }
 
 /// Render one row of a nested (list / vector / struct / map) column compactly.
